@@ -67,9 +67,10 @@ func genC05(t *rapid.T) C05Case {
 	nruns := rapid.IntRange(1, 2).Draw(t, "nruns")
 	for i := 0; i < nruns; i++ {
 		c.Runs = append(c.Runs, CompileRun{
-			Par:     parChoices[rapid.IntRange(0, len(parChoices)-1).Draw(t, "par")],
-			Request: genPermutation(t, req, true),
-			Symbols: rapid.IntRange(0, 1).Draw(t, "symbols") == 0,
+			Par:        parChoices[rapid.IntRange(0, len(parChoices)-1).Draw(t, "par")],
+			Request:    genPermutation(t, req, true),
+			Symbols:    rapid.IntRange(0, 1).Draw(t, "symbols") == 0,
+			RetainASTs: rapid.IntRange(0, 3).Draw(t, "retainASTs") == 0,
 		})
 	}
 	c.Sched = genSched(t, &wl, compileOptional, 300)
@@ -93,6 +94,7 @@ func execC05(t *testing.T, c C05Case) *Verdict {
 				Resolver:       mapResolver(c.WL.sources()),
 				MaxParallelism: r.Par,
 				SourceInfoMode: protocompile.SourceInfoMode(c.SrcInfo),
+				RetainASTs:     r.RetainASTs,
 			}
 			if r.Symbols {
 				comp.Symbols = &linker.Symbols{}
